@@ -297,16 +297,62 @@ func ruleCLI(w *World, r *Report) {
 	nr := w.inferNoReturn()
 	eng := &cliEngine{w: w, nr: nr}
 	found := map[string]bool{}
-	for _, ci := range callInstrs(mainFn) {
-		call, ok := ci.(*ssa.Call)
-		if !ok {
-			continue
+	// main and the private helpers a command's code may have been moved into
+	cliFns := region(mainFn)
+	type libSite struct {
+		call *ssa.Call
+		in   *ssa.Function
+	}
+	var sites []libSite
+	for _, f := range cliFns {
+		for _, ci := range callInstrs(f) {
+			if call, ok := ci.(*ssa.Call); ok {
+				if _, isLib := cliLibCalls[staticCalleeShort(&call.Call)]; isLib {
+					sites = append(sites, libSite{call, f})
+				}
+			}
 		}
+	}
+	// outcomesFrom explores from a point in hf; where hf (a helper) returns, it goes on after each call of hf
+	var outcomesFrom func(hf *ssa.Function, blk *ssa.BasicBlock, idx int, env cliEnv, via []string, depth int) []outcome
+	outcomesFrom = func(hf *ssa.Function, blk *ssa.BasicBlock, idx int, env cliEnv, via []string, depth int) []outcome {
+		outs := eng.outcomes(hf, blk, idx, env, 6, via)
+		if hf == mainFn || depth > 2 {
+			return outs
+		}
+		var res []outcome
+		for _, o := range outs {
+			if o.exit {
+				res = append(res, o)
+				continue
+			}
+			cont := false
+			for _, cf := range cliFns {
+				for _, ci := range callInstrs(cf) {
+					c2, ok := ci.(*ssa.Call)
+					if !ok || c2.Call.StaticCallee() != hf {
+						continue
+					}
+					cont = true
+					i2 := 0
+					for i, in := range c2.Block().Instrs {
+						if in == ssa.Instruction(c2) {
+							i2 = i + 1
+						}
+					}
+					res = append(res, outcomesFrom(cf, c2.Block(), i2, cliEnv{}, o.via, depth+1)...)
+				}
+			}
+			if !cont {
+				res = append(res, o)
+			}
+		}
+		return res
+	}
+	for _, site := range sites {
+		call, hf := site.call, site.in
 		name := staticCalleeShort(&call.Call)
-		ext, isLib := cliLibCalls[name]
-		if !isLib {
-			continue
-		}
+		ext := cliLibCalls[name]
 		found[name] = true
 		pos := w.ipos(call)
 		// the error value
@@ -332,7 +378,7 @@ func ruleCLI(w *World, r *Report) {
 				idx = i + 1
 			}
 		}
-		outs := eng.outcomes(mainFn, blk, idx, cliEnv{E: absVal{k: absNonNil}}, 6, nil)
+		outs := outcomesFrom(hf, blk, idx, cliEnv{E: absVal{k: absNonNil}}, nil, 0)
 		bad := 0
 		codes := map[string]bool{}
 		for _, o := range outs {
@@ -379,7 +425,7 @@ func ruleCLI(w *World, r *Report) {
 		}
 		// (2) verify success side
 		if strings.HasSuffix(name, ".Verify") {
-			outsNil := eng.outcomes(mainFn, blk, idx, cliEnv{E: absVal{k: absNil}}, 6, nil)
+			outsNil := outcomesFrom(hf, blk, idx, cliEnv{E: absVal{k: absNil}}, nil, 0)
 			okv := len(outsNil) > 0
 			why := ""
 			for _, o := range outsNil {
@@ -491,9 +537,11 @@ func ruleCLI(w *World, r *Report) {
 	}
 	// usage-error call sites in main: each call of printUsageAndExit that is dominated by err != nil
 	nUsage := 0
-	for _, ci := range callInstrs(mainFn) {
-		if staticCalleeShort(ci.Common()) == "cmd/par.printUsageAndExit" {
-			nUsage++
+	for _, f := range cliFns {
+		for _, ci := range callInstrs(f) {
+			if staticCalleeShort(ci.Common()) == "cmd/par.printUsageAndExit" {
+				nUsage++
+			}
 		}
 	}
 	r.floor("CLI", "printUsageAndExit call sites in main", nUsage, 5)
@@ -512,7 +560,11 @@ func ruleCLI(w *World, r *Report) {
 	}
 	// unknown extension / unknown command defaults: covered by (6)+(1): additionally the default
 	// branches must exit non-zero: every exit in main with constant 0 must be on the success side of a library call.
-	for _, ci := range callInstrs(mainFn) {
+	var exitCalls []ssa.CallInstruction
+	for _, f := range cliFns {
+		exitCalls = append(exitCalls, callInstrs(f)...)
+	}
+	for _, ci := range exitCalls {
 		call, ok := ci.(*ssa.Call)
 		if !ok {
 			continue
